@@ -86,7 +86,7 @@ package handler
 //@   ensures[C02] wn[wsink(w)] >= old(wn[wsink(w)]) && wn[wsink(w)] <= old(wn[wsink(w)]) + limit @at-most-limit
 //@   ensures[C02] old(wn[wsink(w)]) <= k && k < wn[wsink(w)] ==> wdata[wsink(w)][k] == fcontent[ctx.State.ROFile][offset + k - old(wn[wsink(w)])] @correct-prefix
 //@   ensures[C02] k < old(wn[wsink(w)]) ==> wdata[wsink(w)][k] == old(wdata[wsink(w)][k]) @earlier-output-kept
-//@   ensures[C02] err == nil ==> wn[wsink(w)] == old(wn[wsink(w)]) + limit @complete-or-error
+//@   ensures[C02,C13] err == nil ==> wn[wsink(w)] == old(wn[wsink(w)]) + limit @complete-or-error
 
 //@ func Handler.HandleReadCD2048Critical results(err)
 //@   tags C17,C04,C05,C13
@@ -97,7 +97,7 @@ package handler
 //@   modifies fpos, limbase, wn[wsink(w)], wdata[wsink(w)], iofaults
 //@   ensures[C05] fsw == old(fsw) @no-write
 //@   ensures[C13] fopen == old(fopen)
-//@   ensures[C17] err == nil ==> wn[wsink(w)] == old(wn[wsink(w)]) + 2048 * sectorsCount @length
+//@   ensures[C17,C13] err == nil ==> wn[wsink(w)] == old(wn[wsink(w)]) + 2048 * sectorsCount @length
 //@   ensures[C17] err == nil && 0 <= s && s < sectorsCount && 0 <= j && j < 2048 ==> wdata[wsink(w)][old(wn[wsink(w)]) + 2048 * s + j] == fcontent[ctx.State.ROFile][24 + (startSector + s) * ctx.State.CDSectorSize + j] @user-data
 //@   ensures[C17] wn[wsink(w)] >= old(wn[wsink(w)]) && wn[wsink(w)] <= old(wn[wsink(w)]) + 2048 * sectorsCount
 //@   loop 1 invariant ctx.State.ROFile != nil && cdSize(ctx.State.CDSectorSize) && 0 <= $idx && offset == 24 + (startSector + $idx) * ctx.State.CDSectorSize @offset
@@ -205,7 +205,9 @@ package handler
 //@   ensures[C05] fsw == old(fsw) @no-write
 //@   ensures[C13] noLeak(ctx) && (fi == nil && old(ctx.State.CwdHandle) != nil ==> ctx.State.CwdHandle == nil && !fopen[old(ctx.State.CwdHandle)]) @closed-at-end
 //@   ensures[C06] fi != nil ==> ctx.State.CwdHandle == old(ctx.State.CwdHandle) @still-open
+//@   ensures[C06] old(ctx.State.CwdHandle) != nil ==> dirpos[old(ctx.State.CwdHandle)] - old(dirpos[ctx.State.CwdHandle]) == (fi != nil ? 1 : 0) + (dotnames - old(dotnames)) + (statfails - old(statfails)) @every-name-handed-out-is-reported-unless-it-is-dot-dotdot-or-cannot-be-stat'ed
 //@   loop 1 invariant ctx.State.CwdHandle != nil && ctx.State.CwdHandle == old(ctx.State.CwdHandle) && fopen == old(fopen) && fsw == old(fsw) && iofaults >= old(iofaults)
+//@   loop 1 invariant[C06] dirpos[ctx.State.CwdHandle] - old(dirpos[ctx.State.CwdHandle]) == (dotnames - old(dotnames)) + (statfails - old(statfails)) @names-skipped-so-far-were-dot-entries-or-failed-stat
 
 //@ func Handler.HandleReadDir results(files)
 //@   tags C04,C05,C06,C13,C01
